@@ -6,7 +6,7 @@ import itertools
 import multiprocessing as mp
 from collections import Counter
 
-from ..core.runner import HarnessError
+from ..core.runner import HarnessError, guarded
 
 LEVEL = "exploration"
 
@@ -404,17 +404,17 @@ def run(ctx):
     # one fresh process per (configuration, slice): maxtasksperchild=1
     ctxmp = mp.get_context("fork")
     with ctxmp.Pool(ctx.workers, maxtasksperchild=1) as pool:
-        for cfgname, n, j, s, viols in pool.imap_unordered(run_config, work):
+        for cfgname, n, j, s, viols in pool.imap_unordered(guarded(run_config), work):
             tot += n
             judged += j
             skipped += s
             per[cfgname] += j
             ctx.absorb(viols)
-        for cfgname, n, viols in pool.imap_unordered(run_special, [(c, ctx.tier) for c in CONFIGS]):
+        for cfgname, n, viols in pool.imap_unordered(guarded(run_special), [(c, ctx.tier) for c in CONFIGS]):
             tot += n
             judged += n
             ctx.absorb(viols)
-        for n, viols in pool.imap_unordered(run_partial, [(nm, via) for nm in PARTIAL for via in ("species", "network")]):
+        for n, viols in pool.imap_unordered(guarded(run_partial), [(nm, via) for nm in PARTIAL for via in ("species", "network")]):
             tot += n
             judged += n
             ctx.absorb(viols)
